@@ -56,7 +56,7 @@ def hist_slice(tier):
 NONNEG_STYLES = ("zeros", "positive", "prob", "lattice", "dups")
 
 
-def gen_case(rng, arm, tier):
+def gen_case(rng, arm, tier, k=0):
     d = rng.randint(1, 4)
     K = rng.randint(2, 3)
     mats = []
